@@ -4,7 +4,7 @@
 use std::sync::Arc;
 
 use pgp::{
-    composed::{ArmorOptions, CleartextSignedMessage, Deserializable, DetachedSignature, Message, SignedPublicKey, SubpacketConfig},
+    composed::{ArmorOptions, CleartextSignedMessage, Deserializable, DetachedSignature, Message, SignedPublicKey},
     packet::{Packet, PacketParser, Signature, SignatureConfig, SignatureType, Subpacket, SubpacketData},
     ser::Serialize,
     types::{KeyDetails, KeyVersion, Password, Tag, Timestamp},
@@ -70,9 +70,15 @@ fn enum_string(n: usize, mut idx: usize) -> Vec<u8> {
 
 fn hash_for(key: &str, p: &mut Planner) -> &'static str {
     match key {
-        "ed448-v6" => "sha512",
-        _ => *p.pick(&["sha256", "sha512", "sha384"]),
+        "ed448-v6" => *p.pick(&["sha512", "sha3_512"]),
+        _ => *p.pick(&workload::HASHES),
     }
+}
+
+/// which issuer subpackets the signature carries: the library's default set, none at all, only the
+/// fingerprint, only the key id (v4 keys)
+fn plan_issuer(p: &mut Planner) -> &'static str {
+    *p.pick(&["default", "default", "default", "none", "fp", "keyid"])
 }
 
 fn gen_data_complete(ctx: &GenCtx) -> Vec<Value> {
@@ -121,7 +127,7 @@ fn gen_data_complete(ctx: &GenCtx) -> Vec<Value> {
             s.extend_from_slice(a);
         }
         let key = *p.pick(&SIGN_KEYS);
-        plans.push(json!({"mode":"complete","iface": *p.pick(&IFACES), "key": key, "hash": hash_for(key, &mut p),
+        plans.push(json!({"mode":"complete","iface": *p.pick(&IFACES), "key": key, "hash": hash_for(key, &mut p), "issuer": plan_issuer(&mut p),
             "payload": {"hex": hex::encode(&s)}, "src_sched": p.sched().to_json(), "rng_key": p.u64()}));
     }
     plans
@@ -155,7 +161,7 @@ fn gen_data_sound(ctx: &GenCtx) -> Vec<Value> {
             s.extend_from_slice(a);
             }
             let key = if p.chance(2, 3) { *p.pick(&["ed25519-v4", "ed25519-v6"]) } else { *p.pick(&SIGN_KEYS) };
-            json!({"mode":"sound","iface": *p.pick(&IFACES), "key": key, "hash": hash_for(key, &mut p), "no_issuer": p.chance(1,4),
+            json!({"mode":"sound","iface": *p.pick(&IFACES), "key": key, "hash": hash_for(key, &mut p), "issuer": plan_issuer(&mut p),
                 "payload": {"hex": hex::encode(&s)}, "src_sched": {"k":"full"}, "rng_key": p.u64(), "pick": p.u64()})
         }));
     plans
@@ -174,6 +180,14 @@ struct Signed {
     signers: Vec<&'static PoolKey>,
 }
 
+fn issuer_of(plan: &Value) -> &str {
+    match jstr(plan, "issuer") {
+        "" if jbool(plan, "no_issuer") => "none",
+        "" => "default",
+        x => x,
+    }
+}
+
 fn sign_with(plan: &Value, content: &Arc<Vec<u8>>) -> Result<Signed, String> {
     let iface = jstr(plan, "iface");
     let k = keys::get(jstr(plan, "key"));
@@ -182,13 +196,8 @@ fn sign_with(plan: &Value, content: &Arc<Vec<u8>>) -> Result<Signed, String> {
     let mut rng = SimRng::new(ju64(plan, "rng_key"), "sign", false);
     let sched = Sched::from_json(&plan["src_sched"]);
     let src = || SimReader::new(content.clone(), sched.clone(), vec![]).0;
-    let subpackets = || -> SubpacketConfig {
-        if jbool(plan, "no_issuer") {
-            SubpacketConfig::UserDefined { hashed: vec![Subpacket::regular(SubpacketData::SignatureCreationTime(Timestamp::now())).unwrap()], unhashed: vec![] }
-        } else {
-            SubpacketConfig::Default
-        }
-    };
+    let issuer = issuer_of(plan);
+    let subpackets = || workload::subpacket_config(issuer, k);
     let e = |e: pgp::errors::Error| e.to_string();
     match iface {
         "detached_bin" => {
@@ -235,7 +244,7 @@ fn sign_with(plan: &Value, content: &Arc<Vec<u8>>) -> Result<Signed, String> {
         }
         _ => {
             let text = iface == "builder_text";
-            let mut signers = vec![json!({"key": k.name, "hash": jstr(plan, "hash")})];
+            let mut signers = vec![json!({"key": k.name, "hash": jstr(plan, "hash"), "subpackets": issuer})];
             let mut ks = vec![k];
             if iface == "builder_bin2" {
                 let k2 = keys::get(if k.name == "ed25519-v6" { "ed25519-v4" } else { "ed25519-v6" });
@@ -297,6 +306,11 @@ fn verify_detached(sig: &Signature, content: &[u8], key: &SignedPublicKey, sched
 }
 
 fn verify_message(stream: &[u8], expect: &[u8], keys: &[&'static PoolKey], sched: &Sched, armored: bool) -> Vec<(String, bool)> {
+    let named: Vec<(&str, &SignedPublicKey)> = keys.iter().map(|k| (k.name, &k.public)).collect();
+    verify_message_pub(stream, expect, &named, sched, armored)
+}
+
+fn verify_message_pub(stream: &[u8], expect: &[u8], keys: &[(&str, &SignedPublicKey)], sched: &Sched, armored: bool) -> Vec<(String, bool)> {
     let mut out = Vec::new();
     let r = (|| -> Result<Vec<(String, bool)>, String> {
         let mut v = Vec::new();
@@ -308,17 +322,17 @@ fn verify_message(stream: &[u8], expect: &[u8], keys: &[&'static PoolKey], sched
         if data != expect {
             return Err("message content differs".into());
         }
-        for k in keys {
-            let any = (0..keys.len()).any(|i| m.verify_nested_explicit(i, &k.public).is_ok());
-            v.push((format!("Message::verify_nested_explicit[{}]", k.name), any));
-            let nested = m.verify_nested(&[&k.public]).map(|r| r.iter().all(|x| matches!(x, pgp::composed::VerificationResult::Valid(_)))).unwrap_or(false);
-            v.push((format!("Message::verify_nested[{}]", k.name), nested));
+        for (name, public) in keys {
+            let any = (0..keys.len().max(3)).any(|i| m.verify_nested_explicit(i, *public).is_ok());
+            v.push((format!("Message::verify_nested_explicit[{name}]"), any));
+            let nested = m.verify_nested(&[*public]).map(|r| r.iter().all(|x| matches!(x, pgp::composed::VerificationResult::Valid(_)))).unwrap_or(false);
+            v.push((format!("Message::verify_nested[{name}]"), nested));
         }
-        v.push(("Message::verify".to_string(), keys.iter().any(|k| m.verify(&k.public).is_ok())));
+        v.push(("Message::verify".to_string(), keys.iter().any(|(_, public)| m.verify(*public).is_ok())));
         // verify_read on a fresh parse
         let (input, _l) = seams::sim_bufread(bytes, Sched::Full, 8192, vec![]);
         let mut m2 = if armored { Message::from_armor(input).map_err(|e| e.to_string())?.0 } else { Message::from_bytes(input).map_err(|e| e.to_string())? };
-        v.push(("Message::verify_read".to_string(), keys.iter().any(|k| m2.verify_read(&k.public).is_ok())));
+        v.push(("Message::verify_read".to_string(), keys.iter().any(|(_, public)| m2.verify_read(*public).is_ok())));
         Ok(v)
     })();
     match r {
@@ -538,6 +552,7 @@ fn run_data(plan: &Value, rec: &mut Rec) {
             muts.push(json!({"m":"sig_fields","sig":i}));
         }
         muts.push(json!({"m":"key_subst"}));
+        muts.push(json!({"m":"key_fields"}));
         if signed.message.is_some() {
             muts.push(json!({"m":"ops_fields"}));
             for what in ["literal", "whole-message", "last-signature", "one-pass-and-literal"] {
@@ -746,6 +761,42 @@ fn run_data_mutation(plan: &Value, rec: &mut Rec, signed: &Signed, content: &Arc
                                 accepted.push("Signature::verify under the encryption subkey".into());
                             }
                         }
+                    }
+                }
+            }
+            "key_fields" => {
+                // (c) the verifying key: single-bit flips in the key material of the primary public key packet.
+                // (Flips in the creation time leave the material alone: the result is the same cryptographic
+                // key under another fingerprint.  rpgp's Signature::verify refuses it when the signature names
+                // its issuer, Message::verify* does not look at issuer subpackets at all - neither is demanded
+                // by the property, which is about another *key*, so those flips are not part of the oracle.)
+                let Ok(cert) = k.public.to_bytes() else { return };
+                let Ok(pk) = deframe(&cert) else { return };
+                let Some(p0) = pk.first().filter(|p| p.tag == 6) else { return };
+                let nbits = p0.body.len() * 8;
+                let bits: Vec<usize> = (0..24).map(|i| 48 + (i * 7919 + ju64(plan, "pick") as usize) % (nbits - 48)).collect();
+                for bit in bits {
+                    let mut body = p0.body.clone();
+                    body[bit / 8] ^= 1 << (bit % 8);
+                    let stream = rebuild(&pk, 0, &body);
+                    let Ok(variant) = SignedPublicKey::from_bytes(&stream[..]) else { continue };
+                    if variant.primary_key.public_params() == k.public.primary_key.public_params() {
+                        continue; // (a flip the parser normalizes away)
+                    }
+                    evals += 1;
+                    let what = "key material";
+                    for s in &signed.sigs {
+                        if signed.cleartext.is_none() {
+                            accepted.extend(verify_detached(s, content, &variant, &Sched::Full, false).into_iter().filter(|x| x.1).map(|x| format!("{} under the signer's key with bit {bit} ({what}) flipped", x.0)));
+                        }
+                    }
+                    if let Some(msg) = &signed.message {
+                        if signed.signers.len() == 1 {
+                            accepted.extend(verify_message_pub(msg, content, &[("variant", &variant)], &Sched::Full, false).into_iter().filter(|x| x.1).map(|x| format!("{} under the signer's key with bit {bit} ({what}) flipped", x.0)));
+                        }
+                    }
+                    if let Some(doc) = &signed.cleartext {
+                        accepted.extend(verify_cleartext(doc, &variant).into_iter().filter(|x| x.1).map(|x| format!("{} under the signer's key with bit {bit} ({what}) flipped", x.0)));
                     }
                 }
             }
